@@ -74,6 +74,45 @@ for it in range(N):
                 lambda kind=kind, box=box, p=p, q=q: displacement_contract(kind, box, p, q))
 
 
+def broadcast_contract(kind, box):
+    """operands of different dimensionality (many points vs one point, stack vs single model):
+    the result is the element-wise displacement from the first to the second argument, in every combination"""
+    b32 = box.astype(np.float32)
+    many = (rng.uniform(0, 1, size=(5, 3)) @ box).astype(np.float32)
+    one = (rng.uniform(0, 1, size=3) @ box).astype(np.float32)
+    stack = np.stack([many, many + np.float32(0.5)])
+    for use_box in (False, True):
+        kw = {"box": b32} if use_box else {}
+        ref = lambda a, b: struc.displacement(a, b, **kw)
+        for name, x, y in (("(n,3) -> (3,)", many, one), ("(3,) -> (n,3)", one, many), ("(m,n,3) -> (n,3)", stack, many),
+                           ("(n,3) -> (m,n,3)", many, stack), ("(m,n,3) -> (3,)", stack, one)):
+            got = np.asarray(struc.displacement(x, y, **kw), dtype=float)
+            xb, yb = np.broadcast_arrays(x, y)
+            exp = np.array([ref(a, b) for a, b in zip(xb.reshape(-1, 3), yb.reshape(-1, 3))], dtype=float).reshape(xb.shape)
+            if got.shape != exp.shape or not np.allclose(got, exp, atol=2e-3):
+                return f"displacement {name} (box={use_box}) differs from the element-wise displacements (e.g. {got.reshape(-1, 3)[0].round(3).tolist()} vs {exp.reshape(-1, 3)[0].round(3).tolist()})"
+            d = np.asarray(struc.distance(x, y, **kw), dtype=float)
+            if not np.allclose(d, np.linalg.norm(exp, axis=-1), atol=2e-3):
+                return f"distance {name} (box={use_box}) differs from the element-wise distances"
+        # angle / dihedral with one operand of higher dimensionality
+        pts = [many, many + np.float32(1.0), (many[::-1] * np.float32(0.9)).astype(np.float32), one]
+        a_ref = np.array([float(struc.angle(stack[m, i], pts[1][i], pts[2][i], **kw)) for m in range(2) for i in range(5)]).reshape(2, 5)
+        a_got = np.asarray(struc.angle(stack, pts[1], pts[2], **kw), dtype=float)
+        if not np.allclose(a_got, a_ref, atol=3e-3):
+            return f"angle(stack, array, array) (box={use_box}) differs from the element-wise angles"
+        d_ref = np.array([float(struc.dihedral(stack[m, i], pts[1][i], pts[2][i], pts[3], **kw)) for m in range(2) for i in range(5)]).reshape(2, 5)
+        d_got = np.asarray(struc.dihedral(stack, pts[1], pts[2], pts[3], **kw), dtype=float)
+        if not np.allclose(np.cos(d_got), np.cos(d_ref), atol=3e-3) or not np.allclose(np.sin(d_got), np.sin(d_ref), atol=3e-3):
+            return f"dihedral(stack, array, array, point) (box={use_box}) differs from the element-wise dihedrals"
+    return None
+
+
+for it in range(N // 10):
+    for kind, box in boxes(rng):
+        R.check("distance/angle/dihedral == textbook, rigid-motion invariant, index variants agree", f"operands of different dimensionality {kind}",
+                {"box": box.round(4).tolist()}, lambda kind=kind, box=box: broadcast_contract(kind, box))
+
+
 def textbook(pts):
     a, b, c, d = pts
     dist = np.linalg.norm(b - a)
